@@ -277,7 +277,13 @@ class Vector():
 		B = self._FP_B
 		total = 0
 		for x in self._underlying:
-			h = self._hash_element(x)
+			# Element hashes are scrambled before they enter the polynomial: small ints hash
+			# to themselves, and the bare sum was linear in them - one write of [a + 1, b - B]
+			# over [a, b] (cells of one table row likewise) left the fingerprint as it was
+			h = self._hash_element(x) & 0xFFFFFFFFFFFFFFFF
+			h = ((h ^ (h >> 30)) * 0xBF58476D1CE4E5B9) & 0xFFFFFFFFFFFFFFFF
+			h = ((h ^ (h >> 27)) * 0x94D049BB133111EB) & 0xFFFFFFFFFFFFFFFF
+			h ^= h >> 31
 			total = (total * B + h) % P
 		return total
 
